@@ -26,26 +26,7 @@ example : ST (.inner [98] 1 2 (.leaf [97] [1] Meta.fresh) (.leaf [98] [2] Meta.f
     simp [lt, le, cmpB]
 
 /-- **set_total** — `set` (hence `balance`, `rotateLeft/Right`) never panics, on any tree whatsoever. -/
-theorem set_total (t : Node) (k v : Bytes) : ∃ r, t.set k v = some r := by
-  induction t with
-  | leaf nk nv m => simp only [Node.set]; split <;> exact ⟨_, rfl⟩
-  | inner nk h s l r m ihl ihr =>
-    simp only [Node.set]
-    split
-    · obtain ⟨⟨l', u⟩, e⟩ := ihl
-      rw [e]
-      cases u with
-      | true => exact ⟨_, rfl⟩
-      | false =>
-        obtain ⟨n', hb, _⟩ := balance_cases nk (max l'.height r.height + 1) (l'.size + r.size) l' r Meta.fresh
-        exact ⟨(n', false), by simp [mk, hb]⟩
-    · obtain ⟨⟨r', u⟩, e⟩ := ihr
-      rw [e]
-      cases u with
-      | true => exact ⟨_, rfl⟩
-      | false =>
-        obtain ⟨n', hb, _⟩ := balance_cases nk (max l.height r'.height + 1) (l.size + r'.size) l r' Meta.fresh
-        exact ⟨(n', false), by simp [mk, hb]⟩
+theorem set_total (t : Node) (k v : Bytes) : ∃ r, t.set k v = some r := set_isSome t k v
 
 /-- **get_set** — reading any key after a write: the written value for the written key, the old answer for
 every other key. -/
